@@ -11,12 +11,27 @@ R15.2  the polling loop has no infinite path once every awaited entity is
        are decided by a small abstract interpretation of the loop: branch
        edges contradicting the assumption are pruned, list emptiness is
        tracked, and the rule fires iff a cycle through the loop head remains.
+       A comparison of the timeout with an elapsed time is decided by the
+       orientation of the elapsed time: both sides are brought into the linear
+       form a*NOW + b*START + c*timeout (NOW: a clock read that is fresh in
+       every round, START: the stamp taken before the loop, through locals and
+       helpers); with a == -b the difference grows with the sign of a, which
+       with the operator gives the truth of the test once time has gone on
+       (`timeout <= start - now` never fires).
+       Predicates extracted into helpers, nested closures (which may read the
+       locals of the wait function and `self`), lambdas and if-return chains
+       are read as the boolean expression they return (all rules).
 R15.3  every `return` of the four functions returns a state read that is not
        older than the polling loop.
-R15.4  wait_tasks / wait_pilots: the keep-waiting condition, evaluated over the
-       folded state tables for every request, drops an entity that is in a
-       requested state or final and keeps one that is before every requested
-       state.
+R15.4  the keep-waiting condition, evaluated over the folded state tables for
+       every request, lets go of an entity that is in a requested state or
+       final and keeps waiting for one that is before every requested state:
+       the filter of the check list in wait_tasks / wait_pilots, and for
+       Task.wait / Pilot.wait the tests of the polling loop that read the
+       entity state (a round trip head -> head must exist / must not exist).
+       A threshold folded over the requested states before the loop
+       (`v = min(v, value[s])`) is run for every concrete request, so `max`
+       for `min` is decided, not guessed.
 R15.5  wait_tasks / wait_pilots: monotone shrink.  On every path through one
        round of the polling loop the check list at the end of the round holds
        only members it held at the start (abstract interpretation: subset-of-
@@ -45,6 +60,12 @@ R15.8  hand-over: where a function of the four classes calls a wait anchor and
        None, and 0 / a negative number only if the callee's polling loop
        (R15.2 machinery, run for that sign) ends for it; inside a loop the
        value shrinks with a clock or is a constant.
+R15.9  "has reached", not "is in": the keep-waiting condition of all four is
+       false in every state whose value lies above that of a requested state.
+       The states are polled every 0.1 s, so a requested non-final state the
+       entity only passes through is never seen by a membership test; only
+       wait_tasks compares values.  (KNOWN findings on today's tree for
+       Task.wait, Pilot.wait and wait_pilots.)
 """
 
 import ast
@@ -62,6 +83,10 @@ ANCHORS = [
 ]
 
 STATE_ATTRS = ('state', '_state')
+
+# the anchors which wait for a list of entities (a check list that shrinks);
+# the others poll the state of `self`
+MANAGER_WAITS = ('wait_tasks', 'wait_pilots')
 
 
 # ------------------------------------------------------------------------------
@@ -475,6 +500,19 @@ def r15_1(prog, rep, rid='R15.1'):
             if isinstance(n, ast.comprehension):
                 for c in n.ifs:
                     dep |= d.expr_depends(c)
+        # predicates extracted into helpers / closures: what they read
+        tests = [n.ast for n in g.nodes
+                 if n.id in g.loop_body[head] and n.kind == 'test'] + \
+                [c for n in walk(loop) if isinstance(n, ast.comprehension)
+                 for c in n.ifs]
+        depth = 0
+        while tests and depth < 3:
+            bodies = [inline_pred(prog, f, c) for t in tests
+                      for c in calls_in(t)]
+            tests = [b for b in bodies if b is not None]
+            for b in tests:
+                dep |= d.expr_depends(b)
+            depth += 1
         rep.check(var in dep, rid, f,
                   '%s: the polling loop depends on %r' % (f.qual, var),
                   construct='loop reads requested states',
@@ -501,37 +539,151 @@ def substitute(expr, mapping):
     return T().visit(copy.deepcopy(expr))
 
 
-def inline_pred(prog, f, call):
-    """the boolean expression a call stands for, if the callee is a resolvable
-    function whose body is a single `return <expr>` over its parameters (which
-    are replaced by the arguments); else None"""
+def _bool_const(e):
+    return isinstance(e, ast.Constant) and isinstance(e.value, bool)
+
+
+def _ite(c, a, b):
+    """boolean expression with the truth value of `a if c else b`"""
+    def neg(x):
+        return ast.UnaryOp(op=ast.Not(), operand=x)
+
+    def both(x, y):
+        return ast.BoolOp(op=ast.And(), values=[x, y])
+
+    def either(x, y):
+        return ast.BoolOp(op=ast.Or(), values=[x, y])
+    if _bool_const(a) and _bool_const(b):
+        if a.value == b.value:
+            return a
+        return c if a.value else neg(c)
+    if _bool_const(a):
+        return either(c, b) if a.value else both(neg(c), b)
+    if _bool_const(b):
+        return either(neg(c), a) if b.value else both(c, a)
+    return either(both(c, a), both(neg(c), b))
+
+
+def _returned_expr(stmts, mapping=None, boolean=None):
+    """the expression a statement list returns: `return <expr>`, possibly
+    behind plain single-name assignments (substituted into what follows) and
+    `if`s whose arms all return (an if-return chain: read as the boolean
+    expression with the same truth value).  `boolean` is a one-element list
+    set to True when an `if` was folded (the result then only has the truth
+    value of what is returned).  None for any other shape"""
+    mapping = dict(mapping or {})
+    stmts = [x for x in stmts
+             if not (isinstance(x, ast.Expr) and
+                     isinstance(x.value, ast.Constant)) and
+             not isinstance(x, ast.Pass)]
+    if not stmts:
+        return None
+    s = stmts[0]
+    if isinstance(s, ast.Return):
+        if s.value is None:
+            return None
+        return substitute(s.value, mapping) if mapping else s.value
+    if isinstance(s, ast.Assign) and len(s.targets) == 1 and \
+            isinstance(s.targets[0], ast.Name) and len(stmts) > 1:
+        if any(isinstance(n, (ast.Call, ast.Await, ast.Yield, ast.NamedExpr))
+               for n in walk(s.value, nested=True)) and \
+                sum(1 for x in stmts[1:] for n in walk(x)
+                    if isinstance(n, ast.Name) and
+                    n.id == s.targets[0].id) > 1:
+            return None         # a call result read twice is not two calls
+        mapping[s.targets[0].id] = substitute(s.value, mapping) \
+            if mapping else s.value
+        return _returned_expr(stmts[1:], mapping, boolean)
+    if isinstance(s, ast.If):
+        a = _returned_expr(s.body, mapping, boolean)
+        if a is None:
+            return None
+        b = _returned_expr(s.orelse if s.orelse else stmts[1:], mapping,
+                           boolean)
+        if b is None:
+            return None
+        if boolean is not None:
+            boolean[0] = True
+        test = substitute(s.test, mapping) if mapping else s.test
+        return _ite(test, a, b)
+    return None
+
+
+def _encloses(f, h):
+    """h is a closure defined (directly or deeper) inside f"""
+    p = h.parent
+    while p is not None:
+        if p is f:
+            return True
+        p = p.parent
+    return False
+
+
+def inline_pred(prog, f, call, value=False):
+    """the expression a call stands for (with `value`: only where it has the
+    same VALUE, not just the same truth value - no folded if-return chain), if the callee is a resolvable
+    function whose body returns one expression over its parameters (which are
+    replaced by the arguments): a single `return <expr>`, possibly after
+    plain assignments of locals, or an if-return chain (read as the boolean
+    expression of the same truth value).  A closure nested in `f` (a `def` or
+    a `name = lambda ..: <expr>` assigned once) may also read the locals of
+    `f` and `self`: at the call site they are what the closure sees.  Else
+    None"""
     if not isinstance(call, ast.Call) or call.keywords or \
             any(isinstance(a, ast.Starred) for a in call.args):
         return None
+    if isinstance(call.func, ast.Name) and call.func.id not in f.nested:
+        lam = single_assign(f, call.func.id)
+        if isinstance(lam, ast.Lambda):
+            a = lam.args
+            if a.vararg or a.kwarg or a.kwonlyargs or a.defaults:
+                return None
+            params = [x.arg for x in a.posonlyargs + a.args]
+            if len(params) != len(call.args):
+                return None
+            return substitute(lam.body, dict(zip(params, call.args)))
     h = prog.resolve_call(f, call)
     if h is None or h is f:
-        return None
-    stmts = [x for x in h.node.body
-             if not (isinstance(x, ast.Expr) and
-                     isinstance(x.value, ast.Constant))]
-    if len(stmts) != 1 or not isinstance(stmts[0], ast.Return) or \
-            stmts[0].value is None:
         return None
     a = h.node.args
     if a.vararg or a.kwarg or a.kwonlyargs:
         return None
     params = [x.arg for x in a.posonlyargs + a.args]
     static = any(unparse(d) == 'staticmethod' for d in h.node.decorator_list)
-    if h.cls is not None and not static and params and \
+    closure = _encloses(f, h)
+    if h.cls is not None and not static and not closure and params and \
             isinstance(call.func, ast.Attribute):
         params = params[1:]
     if len(params) != len(call.args):
         return None
-    body = stmts[0].value
+    folded = [False]
+    body = _returned_expr(h.node.body, boolean=folded)
+    if body is None or value and folded[0]:
+        return None
     free = {n.id for n in walk(body) if isinstance(n, ast.Name)} - set(params)
-    if 'self' in free or 'cls' in free:
+    if closure:
+        # free names are the caller's own locals
+        if isinstance(call.func, ast.Attribute) or any(
+                isinstance(n, (ast.Global, ast.Nonlocal))
+                for n in walk(h.node)):
+            return None
+    elif 'self' in free or 'cls' in free:
         return None
     return substitute(body, dict(zip(params, call.args)))
+
+
+def _pred_atoms(prog, f, expr, pol=True, depth=0):
+    """[(atom, polarity)]: the conjuncts of a condition, predicates extracted
+    into helpers / closures looked into"""
+    out = []
+    for a, p in _conj_atoms(expr, pol):
+        body = inline_pred(prog, f, a) if isinstance(a, ast.Call) and \
+            depth < 3 else None
+        if body is not None:
+            out += _pred_atoms(prog, f, body, p, depth + 1)
+        else:
+            out.append((a, p))
+    return out
 
 
 def truth3(expr, known):
@@ -606,7 +758,91 @@ def _sign_cmp(sign, op, c):
     return a if a == b else None
 
 
-def _timeout_atom(f, atom, tname, val='pos'):
+class _NotLinear(Exception):
+    pass
+
+
+def _lin_add(a, b, k=1):
+    out = dict(a)
+    for x, v in b.items():
+        out[x] = out.get(x, 0) + k * v
+    return out
+
+
+def _linear(prog, f, g, at, loops, e, tname, depth=0):
+    """coefficients of the expression `e` (evaluated at cfg node `at`) over
+    NOW (a clock read that is evaluated afresh in every round of one of the
+    `loops`), START (a clock read taken outside of them: the stamp), 'tmo'
+    (the timeout) and 'const'; follows locals to the definition(s) that reach
+    the use and single-expression helpers.  Raises _NotLinear"""
+    from ..flow import reaching_defs
+    if depth > 6:
+        raise _NotLinear()
+    if isinstance(e, ast.Constant) and isinstance(e.value, (int, float)) and \
+            not isinstance(e.value, bool):
+        return {'const': e.value}
+    if isinstance(e, ast.UnaryOp) and isinstance(e.op, (ast.USub, ast.UAdd)):
+        v = _linear(prog, f, g, at, loops, e.operand, tname, depth + 1)
+        return v if isinstance(e.op, ast.UAdd) else _lin_add({}, v, -1)
+    if isinstance(e, ast.BinOp) and isinstance(e.op, (ast.Add, ast.Sub)):
+        l = _linear(prog, f, g, at, loops, e.left, tname, depth + 1)
+        r = _linear(prog, f, g, at, loops, e.right, tname, depth + 1)
+        return _lin_add(l, r, 1 if isinstance(e.op, ast.Add) else -1)
+    if isinstance(e, ast.Name):
+        if e.id == tname:
+            return {'tmo': 1}
+        if e.id in f.params:
+            raise _NotLinear()
+        defs = reaching_defs(g, e.id, at)
+        if not defs or any(v is None for dn, v in defs):
+            raise _NotLinear()
+        vals = [_linear(prog, f, g, dn.id, loops, v, tname, depth + 1)
+                for dn, v in defs]
+        vals = [{k: c for k, c in v.items() if c} for v in vals]
+        if any(v != vals[0] for v in vals[1:]):
+            raise _NotLinear()
+        return vals[0]
+    if isinstance(e, ast.Call):
+        if clock_of(prog, f, e, f.module.local_imports(f.node)) is not None:
+            fresh = any(h in g.nodes[at].loops or h == at for h in loops)
+            return {'now' if fresh else 'start': 1}
+        if dotted(e.func) == 'float' and len(e.args) == 1 and not e.keywords:
+            return _linear(prog, f, g, at, loops, e.args[0], tname, depth + 1)
+        body = inline_pred(prog, f, e, value=True)
+        if body is not None:
+            return _linear(prog, f, g, at, loops, body, tname, depth + 1)
+    raise _NotLinear()
+
+
+def _elapsed_test(prog, f, g, node, atom, tname):
+    """truth of an order comparison between the timeout and an elapsed time
+    once the timeout has expired, decided by the ORIENTATION of the elapsed
+    time: `left - right` must be linear in NOW - START (NOW: a clock read that
+    is fresh in every round, START: the stamp taken before the loop) and the
+    timeout; as time goes on its sign is the sign of the coefficient of NOW.
+    None when the comparison is not of that form (the caller falls back to the
+    position of the timeout)"""
+    op = atom.ops[0]
+    loops = g.nodes[node.id].loops
+    if not loops:
+        return None
+    try:
+        l = _linear(prog, f, g, node.id, loops, atom.left, tname)
+        r = _linear(prog, f, g, node.id, loops, atom.comparators[0], tname)
+    except _NotLinear:
+        return None
+    d = _lin_add(l, r, -1)
+    a, b, c = d.get('now', 0), d.get('start', 0), d.get('tmo', 0)
+    if not a or a != -b or not c:
+        return None
+    if isinstance(op, (ast.GtE, ast.Gt)):
+        return a > 0
+    if isinstance(op, (ast.LtE, ast.Lt)):
+        return a < 0
+    return None
+
+
+def _timeout_atom(f, atom, tname, val='pos', ctx=None):
     """truth value of a test on the timeout once it has expired: True / False /
     None (not about the timeout).  `val` is the sign of the timeout the
     function was given: 'pos' (a timeout as the API means it), 'zero' or
@@ -618,7 +854,7 @@ def _timeout_atom(f, atom, tname, val='pos'):
         return None
     if isinstance(atom, ast.Call) and dotted(atom.func) == 'bool' and \
             len(atom.args) == 1 and not atom.keywords:
-        return _timeout_atom(f, atom.args[0], tname, val)
+        return _timeout_atom(f, atom.args[0], tname, val, ctx)
     if isinstance(atom, ast.Compare) and len(atom.ops) == 1:
         op = atom.ops[0]
         l, r = atom.left, atom.comparators[0]
@@ -642,6 +878,11 @@ def _timeout_atom(f, atom, tname, val='pos'):
                                 'timeout is not decided by its sign'
                                 % (f.where, short(atom, 60), val))
         lt, rt = reads_name(l, tname), reads_name(r, tname)
+        if ctx is not None and isinstance(op, (ast.Lt, ast.LtE, ast.Gt,
+                                               ast.GtE)):
+            tv = _elapsed_test(ctx[0], f, ctx[1], ctx[2], atom, tname)
+            if tv is not None:
+                return tv
         if lt != rt:
             # <timeout> op <elapsed>   /   <elapsed> op <timeout>
             if isinstance(op, (ast.LtE, ast.Lt)):
@@ -724,7 +965,7 @@ def _timeout_truth(prog, f, g, node, tname, cache, val='pos'):
             tv = _const_atom(x)
             if tv is not None:
                 return tv
-        return _timeout_atom(f, x, tname, val)
+        return _timeout_atom(f, x, tname, val, (prog, g, node))
     return truth3(cache[node.id], known)
 
 
@@ -770,7 +1011,7 @@ def _empty_value(prog, f, value, st, assume, final, aliases):
     if isinstance(value, ast.Name):
         return value.id in st
     if isinstance(value, ast.Call):
-        body = inline_pred(prog, f, value)
+        body = inline_pred(prog, f, value, value=True)
         if body is not None:
             return _empty_value(prog, f, body, st, assume, final, aliases)
     if isinstance(value, (ast.ListComp, ast.SetComp, ast.GeneratorExp)) and \
@@ -780,14 +1021,9 @@ def _empty_value(prog, f, value, st, assume, final, aliases):
             return True
         if assume == 'final':
             for cond in gen.ifs:
-                for c in and_conjuncts(cond):
-                    neg = False
-                    while isinstance(c, ast.UnaryOp) and \
-                            isinstance(c.op, ast.Not):
-                        c = c.operand
-                        neg = not neg
+                for c, pol in _pred_atoms(prog, f, cond):
                     k = _final_atom(prog, f, c, final, aliases)
-                    if (k == -1 and not neg) or (k == 1 and neg):
+                    if (k == -1 and pol) or (k == 1 and not pol):
                         return True        # filter keeps non-final only
     return False
 
@@ -843,6 +1079,8 @@ def loop_has_infinite_path(prog, f, g, head, assume, final, tname,
             if x is not None:
                 if want and x in st:
                     return None
+                if not want and ('true', x) in st:
+                    return None
                 if not want and x != tname:
                     return st | {x}
             return st
@@ -855,15 +1093,24 @@ def loop_has_infinite_path(prog, f, g, head, assume, final, tname,
                     it.id in st:
                 return None
             names = set(stores_in_target(a.target))
+            names |= {('true', x) for x in names}
             return st - names if edge.label == 'iter' else st
         if node.kind != 'stmt' or a is None:
             return st
         if isinstance(a, ast.Assign):
             emp = _empty_value(prog, f, a.value, st, assume, final, aliases)
+            # a flag: `done = True` / `done = False` steers a later round
+            flag = isinstance(a.value, ast.Constant) and (
+                isinstance(a.value.value, bool) or a.value.value is None)
             for t in a.targets:
                 for name in stores_in_target(t):
-                    st = (st | {name}) if emp and isinstance(t, ast.Name) \
-                        else (st - {name})
+                    st = st - {name, ('true', name)}
+                    if not isinstance(t, ast.Name):
+                        continue
+                    if emp or flag and not a.value.value:
+                        st = st | {name}
+                    elif flag:
+                        st = st | {('true', name)}
                 if isinstance(t, (ast.Subscript, ast.Attribute)):
                     r = t
                     while isinstance(r, (ast.Subscript, ast.Attribute)):
@@ -876,7 +1123,7 @@ def loop_has_infinite_path(prog, f, g, head, assume, final, tname,
             while isinstance(r, (ast.Subscript, ast.Attribute)):
                 r = r.value
             if isinstance(r, ast.Name):
-                st = st - {r.id}
+                st = st - {r.id, ('true', r.id)}
             return st
         for c in calls_in(a):
             if isinstance(c.func, ast.Attribute) and c.func.attr in MUT and \
@@ -1039,8 +1286,11 @@ def r15_2(prog, rep, rid='R15.2'):
                             % unparse(loop.test),
                             '%s: the polling loop has a path from its head '
                             'back to its head on which an expired timeout is '
-                            'not tested (or is tested with the wrong '
-                            'orientation): the wait outlasts its timeout'
+                            'not tested, or is tested with the wrong '
+                            'orientation (the test must become true as time '
+                            'goes on: timeout <= NOW - START, with START the '
+                            'stamp taken before the loop - not START - NOW, '
+                            'not >=): the wait outlasts its timeout'
                             % f.qual, f.loc(loop),
                             history='%s.%s(rps.%s, timeout=1.0) while the %s '
                             'stays in an earlier state: the call does not '
@@ -1207,24 +1457,29 @@ def single_assign(f, name):
     function (and is neither a parameter nor a loop / with / except target)"""
     if name in f.params:
         return None
-    vals = []
-    for n in walk(f.node):
-        if isinstance(n, ast.Assign):
-            for t in n.targets:
-                if name in stores_in_target(t):
-                    if not isinstance(t, ast.Name):
-                        return None
-                    vals.append(n.value)
-        elif isinstance(n, (ast.AugAssign, ast.AnnAssign, ast.NamedExpr)):
-            if name in stores_in_target(n.target):
-                return None
-        elif isinstance(n, (ast.For, ast.comprehension)):
-            if name in stores_in_target(n.target):
-                return None
-        elif isinstance(n, ast.withitem) and n.optional_vars is not None:
-            if name in stores_in_target(n.optional_vars):
-                return None
-    return vals[0] if len(vals) == 1 else None
+    cache = f.__dict__.setdefault('_single_assign', {})
+    if not cache:
+        # name -> [value expressions] | None (bound in another way)
+        def bind(t, value):
+            for nm in stores_in_target(t):
+                if value is None or not isinstance(t, ast.Name) or \
+                        cache.get(nm, []) is None:
+                    cache[nm] = None
+                else:
+                    cache.setdefault(nm, []).append(value)
+        for n in walk(f.node):
+            if isinstance(n, ast.Assign):
+                for t in n.targets:
+                    bind(t, n.value)
+            elif isinstance(n, (ast.AugAssign, ast.AnnAssign, ast.NamedExpr)):
+                bind(n.target, None)
+            elif isinstance(n, (ast.For, ast.comprehension)):
+                bind(n.target, None)
+            elif isinstance(n, ast.withitem) and n.optional_vars is not None:
+                bind(n.optional_vars, None)
+        cache[''] = None
+    vals = cache.get(name)
+    return vals[0] if vals and len(vals) == 1 else None
 
 
 class StateEval:
@@ -1349,39 +1604,78 @@ def _conj_atoms(expr, pol=True):
     return [(expr, pol)]
 
 
-def _min_var(f, name, var, ev):
-    """`name` accumulates the minimum of the values of the requested states:
-    init by an evaluable constant, then name = min(name, <table>[x]) inside
-    `for x in <var>`; returns (init value, element expr, loop var) or None"""
-    init, upd = None, None
+class _LoopJump(Exception):
+    pass
+
+
+def _min_var(f, name, var):
+    """`name` is folded over the requested states before the wait starts
+    (the earliest requested value): assigned once outside of, and otherwise
+    only inside ONE `for x in <var>` loop (`name = min(name, <table>[x])`,
+    `if <table>[x] < name: name = <table>[x]`, ...).  Returns (init expression,
+    the `for` statement) or None.  The fold is not recognised by its text: it
+    is run for every concrete request by `_run_fold`"""
+    fors = [n for n in walk(f.node) if isinstance(n, ast.For) and
+            isinstance(n.target, ast.Name) and
+            isinstance(_copy_source(n.iter), ast.Name) and
+            _copy_source(n.iter).id == var]
+    inside = {}
+    for n in fors:
+        for b in n.body:
+            for x in walk(b):
+                inside[id(x)] = n
+    init, loops = [], []
     for n in walk(f.node):
-        if isinstance(n, ast.Assign) and any(
-                isinstance(t, ast.Name) and t.id == name for t in n.targets):
-            v = n.value
-            if isinstance(v, ast.Call) and dotted(v.func) == 'min' and \
-                    len(v.args) == 2 and any(
-                        isinstance(a, ast.Name) and a.id == name
-                        for a in v.args):
-                other = [a for a in v.args
-                         if not (isinstance(a, ast.Name) and a.id == name)]
-                if len(other) != 1 or upd is not None:
-                    return None
-                upd = other[0]
-            else:
-                if init is not None:
-                    return None
-                try:
-                    init = ev.ev(v)
-                except Uneval:
-                    return None
-    if init is None or upd is None:
+        if isinstance(n, ast.Assign):
+            for t in n.targets:
+                if name in stores_in_target(t):
+                    if not isinstance(t, ast.Name):
+                        return None
+                    if id(n) in inside:
+                        loops.append(inside[id(n)])
+                    else:
+                        init.append(n.value)
+        elif isinstance(n, (ast.AugAssign, ast.AnnAssign, ast.NamedExpr,
+                            ast.For, ast.comprehension)):
+            if name in stores_in_target(n.target):
+                return None
+        elif isinstance(n, ast.withitem) and n.optional_vars is not None:
+            if name in stores_in_target(n.optional_vars):
+                return None
+    if len(init) != 1 or not loops or any(l is not loops[0] for l in loops):
         return None
-    for n in walk(f.node):
-        if isinstance(n, ast.For) and isinstance(n.iter, ast.Name) and \
-                n.iter.id == var and isinstance(n.target, ast.Name) and \
-                any(x is upd for b in n.body for x in walk(b)):
-            return (init, upd, n.target.id)
-    return None
+    return (init[0], loops[0])
+
+
+def _run_block(ev, stmts):
+    for st in stmts:
+        if isinstance(st, ast.If):
+            _run_block(ev, st.body if ev.ev(st.test) else st.orelse)
+        elif isinstance(st, ast.Assign) and all(isinstance(t, ast.Name)
+                                                for t in st.targets):
+            v = ev.ev(st.value)
+            for t in st.targets:
+                ev.names[t.id] = v
+        elif isinstance(st, (ast.Expr, ast.Pass)):
+            pass                     # log lines, comments
+        elif isinstance(st, (ast.Continue, ast.Break)):
+            raise _LoopJump(type(st).__name__)
+        else:
+            raise Uneval(short(st, 50))
+
+
+def _run_fold(ev, name, fold):
+    """run the fold of `name` over the concrete request bound in ev.names"""
+    init, loop = fold
+    ev.names[name] = ev.ev(init)
+    for r in list(ev.ev(loop.iter)):
+        ev.names[loop.target.id] = r
+        try:
+            _run_block(ev, loop.body)
+        except _LoopJump as j:
+            if j.args[0] == 'Break':
+                break
+    _run_block(ev, loop.orelse)
 
 
 def pending_vars(f, g, head):
@@ -1476,7 +1770,7 @@ def keep_conditions(f, g, head, prog=None):
                     for t in n.ast.targets):
             v = _copy_source(n.ast.value)
             if isinstance(v, ast.Call) and prog is not None:
-                v = inline_pred(prog, f, v) or v
+                v = inline_pred(prog, f, v, value=True) or v
             if isinstance(v, (ast.ListComp, ast.SetComp, ast.GeneratorExp)) \
                     and len(v.generators) == 1 and \
                     isinstance(v.generators[0].target, ast.Name):
@@ -1558,12 +1852,12 @@ def keep_tables(prog, f, g, head, var, what):
                     var in names or names & set(minvars)):
                 mv = [x for x in names
                       if x not in (evar, var) and
-                      _min_var(f, x, var, ev) is not None]
+                      _min_var(f, x, var) is not None]
                 if not mv:
                     ignored.append((atom, pol))
                     continue
             for x in names - {evar, var}:
-                m = _min_var(f, x, var, ev)
+                m = _min_var(f, x, var)
                 if m is not None:
                     minvars[x] = m
             relevant.append((atom, pol))
@@ -1573,13 +1867,8 @@ def keep_tables(prog, f, g, head, var, what):
         try:
             for R in requests:
                 ev.names = {var: list(R)}
-                for x, (init, elt, lv) in minvars.items():
-                    vals = [init]
-                    for r in R:
-                        ev.names[lv] = r
-                        vals.append(ev.ev(elt))
-                    ev.names.pop(lv, None)
-                    ev.names[x] = min(vals)
+                for x, fold in minvars.items():
+                    _run_fold(ev, x, fold)
                 for s in domain:
                     kept[(s, tuple(R))] = all(ev.holds(a, s) == pol
                                               for a, pol in relevant)
@@ -1599,19 +1888,39 @@ def keep_tables(prog, f, g, head, var, what):
     return out
 
 
+def wait_tables(prog, f, g, head, var, what):
+    """the keep-waiting tables of a wait anchor (computed once per tree):
+    `keep_tables` for the check list of a manager wait, `entity_keep_table`
+    for the polling loop of Task.wait / Pilot.wait"""
+    cache = prog.__dict__.setdefault('_c15_wait_tables', {})
+    if f.where not in cache:
+        try:
+            if f.name in MANAGER_WAITS:
+                cache[f.where] = keep_tables(prog, f, g, head, var, what)
+            else:
+                cache[f.where] = [entity_keep_table(prog, f, g, head, var,
+                                                    what)]
+        except AnalysisError as e:
+            cache[f.where] = e
+    if isinstance(cache[f.where], AnalysisError):
+        raise cache[f.where]
+    return cache[f.where]
+
+
 def r15_4(prog, rep, rid='R15.4'):
-    rep.rule(rid, 'wait_tasks / wait_pilots: an entity that is in a requested '
-             '(non-final) state, or is final, leaves the check list; one that '
-             'is still before every requested state stays on it (evaluated '
-             'over the folded state tables)', minimum=4)
+    rep.rule(rid, 'an entity that is in a requested (non-final) state, or is '
+             'final, leaves the check list of wait_tasks / wait_pilots and '
+             'ends the polling loop of Task.wait / Pilot.wait; one that is '
+             'still before every requested state stays / keeps it going '
+             '(evaluated over the folded state tables)', minimum=8)
     final = _final(prog)
-    for rel, cname, mname, what in ANCHORS[2:]:
+    for rel, cname, mname, what in ANCHORS:
         f = prog.method(rel, cname, mname)
         rep.saw(f)
         g = cfg_of(f)
         head = wait_loop(f, g)
         pname, var, _ = normalisation(prog, f, g, head)
-        for k in keep_tables(prog, f, g, head, var, what):
+        for k in wait_tables(prog, f, g, head, var, what):
             table, domain, kept = k['table'], k['domain'], k['kept']
             site, cond = k['site'], k['cond']
             stuck, early = [], []
@@ -1626,15 +1935,19 @@ def r15_4(prog, rep, rid='R15.4'):
                         early.append((s, R))
             rep.stat('state_combinations', len(k['requests']) * len(domain))
             ex = stuck[0] if stuck else None
+            single = k['evar'] == 'self'
+            stays = 'the polling loop goes on' if single else \
+                'a %s stays on the check list' % what
             rep.check(not stuck, rid, f, '%s: a %s that is in a requested '
-                      'state (or final) is dropped from the check list'
-                      % (f.qual, what),
+                      'state (or final) %s' % (
+                          f.qual, what, 'ends the polling loop' if single
+                          else 'is dropped from the check list'),
                       construct='keeps waiting when: %s' % cond,
-                      message='%s: a %s stays on the check list while `%s`, '
+                      message='%s: %s while `%s`, '
                       'which still holds when it is in state %s and %s was '
                       'requested (%d such combinations, e.g. %s): the wait '
                       'does not return although the requested state is '
-                      'reached' % (f.qual, what, short(cond, 120),
+                      'reached' % (f.qual, stays, short(cond, 120),
                                    ex[0] if ex else '', ex[1] if ex else '',
                                    len(stuck), sorted({x[0] for x in stuck})),
                       loc=f.loc(site),
@@ -1644,19 +1957,219 @@ def r15_4(prog, rep, rid='R15.4'):
                                     ex[0] if ex else '', what))
             ex = early[0] if early else None
             rep.check(not early, rid, f, '%s: a non-final %s that is before '
-                      'every requested state stays on the check list'
-                      % (f.qual, what),
+                      'every requested state %s'
+                      % (f.qual, what, 'keeps the polling loop going'
+                         if single else 'stays on the check list'),
                       construct='stops waiting although: not (%s)' % cond,
-                      message='%s: a %s in state %s is dropped from the check '
-                      'list although %s was requested and no requested state '
+                      message='%s: a %s in state %s %s '
+                      'although %s was requested and no requested state '
                       'was reached yet (%d such combinations): the wait '
                       'returns without waiting' % (
                           f.qual, what, ex[0] if ex else '',
+                          'ends the polling loop' if single else
+                          'is dropped from the check list',
                           ex[1] if ex else '', len(early)),
                       loc=f.loc(site),
                       history='%s.%s(state=%r) while the %s is in %r: returns '
                       'at once' % (cname, mname, ex[1][0] if ex else '', what,
                                    ex[0] if ex else ''))
+
+
+# ------------------------------------------------------------------------------
+# the keep-waiting table of a loop that polls ONE entity (Task.wait, Pilot.wait)
+#
+class _LoopEval(StateEval):
+    """StateEval which also follows plain copies of a collection
+    (`set(states)`, `tuple(states)`, `states[:]`, `states.copy()`)"""
+
+    def ev(self, e):
+        if isinstance(e, (ast.Call, ast.Subscript)) and not self.is_state(e):
+            src = _copy_source(e)
+            if src is not e:
+                return list(self.ev(src))
+        return super().ev(e)
+
+
+def entity_keep_table(prog, f, g, head, var, what):
+    """Task.wait / Pilot.wait (the awaited entity is `self`): for every request
+    (one state, two states) and every state the entity may rest in, whether the
+    polling loop has a path from its head back to its head - the wait goes on.
+    The tests of the loop which read the entity state or the requested states
+    are evaluated over the folded state table; every other test (timeout not
+    given / not yet expired, manager not terminated) may go either way.
+    Returns a dict like the ones of `keep_tables`"""
+    table = prog.const('states.py', '_%s_state_values' % what)
+    domain = [s for s in table if s is not None]
+    body = g.loop_body[head] | {head}
+    aliases = _state_aliases(f, g, head)
+    loop = g.loop_ast[head]
+
+    def is_state(e):
+        return isinstance(e, ast.Attribute) and e.attr in STATE_ATTRS and \
+            isinstance(e.value, ast.Name) and e.value.id == 'self' or \
+            isinstance(e, ast.Name) and e.id in aliases
+    ev = _LoopEval(prog, f, is_state,
+                   resolve=lambda n: single_assign(f, n)
+                   if n != var and n not in aliases else None)
+    d = Deps(f.node, implicit=False)
+    tests = []
+    for n in g.nodes:
+        if n.kind != 'test' or n.id not in body:
+            continue
+        expr = n.ast
+        if isinstance(expr, ast.Call):
+            expr = inline_pred(prog, f, expr) or expr
+        if any(is_state(x) for x in walk(expr)) or \
+                var in d.expr_depends(expr):
+            tests.append((n.id, expr))
+    if not tests:
+        raise AnalysisError('UNRECOGNISED-IDIOM %s: no test of the polling '
+                            'loop reads the state of the awaited %s'
+                            % (f.where, what))
+    requests = [[r] for r in domain] + \
+               [[a, b] for a in domain for b in domain if a != b]
+    folds = {}
+    for _, x in tests:
+        for n in walk(x):
+            if isinstance(n, ast.Name) and n.id != var and \
+                    n.id not in aliases and n.id not in folds:
+                m = _min_var(f, n.id, var)
+                if m is not None:
+                    folds[n.id] = m
+    vecs = {}
+    try:
+        for R in requests:
+            ev.names = {var: list(R)}
+            for x, fold in folds.items():
+                _run_fold(ev, x, fold)
+            for st in domain:
+                vecs[(st, tuple(R))] = tuple(ev.holds(x, st)
+                                             for _, x in tests)
+    except Uneval as e:
+        raise AnalysisError('UNRECOGNISED-IDIOM %s: cannot evaluate the tests '
+                            '`%s` of the polling loop over the state table '
+                            '(%s)' % (f.where, '`, `'.join(
+                                short(x, 50) for _, x in tests), e))
+
+    def goes_on(vec):
+        """a round trip head -> .. -> head can be repeated for ever.  Boolean
+        flags (`done = True`) steer later rounds: the abstract state at the
+        head is what is known about them, and the wait goes on iff the graph
+        of head states has a cycle"""
+        truth = {nid: v for (nid, _), v in zip(tests, vec)}
+
+        def transfer(node, edge, st):
+            if edge.label == 'exc':
+                return st
+            a = node.ast
+            if node.kind == 'test' and edge.label in 'TF':
+                want = edge.label == 'T'
+                if node.id in truth:
+                    return st if truth[node.id] == want else None
+                if isinstance(a, ast.Name):
+                    known = dict(st).get(a.id)
+                    if known is not None and known != want:
+                        return None
+                    return frozenset(set(st) | {(a.id, want)})
+                return st
+            names = stores_of(node)
+            if names:
+                flags = {k: v for k, v in st if k not in names}
+                if node.kind == 'stmt' and isinstance(a, ast.Assign) and \
+                        isinstance(a.value, ast.Constant) and \
+                        all(isinstance(t, ast.Name) for t in a.targets):
+                    for nm in names:
+                        flags[nm] = bool(a.value.value)
+                return frozenset(flags.items())
+            if node.kind == 'stmt' and a is not None and st:
+                # a collection that is changed in place is not a flag
+                recv = {c.func.value.id for c in calls_in(a)
+                        if isinstance(c.func, ast.Attribute) and
+                        isinstance(c.func.value, ast.Name)}
+                if recv:
+                    return frozenset((k, v) for k, v in st if k not in recv)
+            return st
+        succ, todo = {}, [frozenset()]
+        while todo:
+            s0 = todo.pop()
+            if s0 in succ:
+                continue
+            ex = Exploration(g, head, s0, transfer,
+                             stop=lambda nid: nid not in body,
+                             stop_edge=lambda e: e.back and e.dst == head)
+            succ[s0] = {t.state for t in ex.terminals if t.node == head}
+            todo += list(succ[s0])
+        return any(s0 in _reach(succ, s1) for s0 in succ for s1 in succ[s0])
+    verdict = {v: goes_on(v) for v in set(vecs.values())}
+    kept = {k: verdict[v] for k, v in vecs.items()}
+    cond = ' ; '.join(unparse(x) for _, x in tests)
+    return dict(evar='self', site=loop, cond='loop tests: ' + cond,
+                relevant=[(x, True) for _, x in tests], ignored=[],
+                requests=requests, domain=domain, table=table, kept=kept)
+
+
+# ------------------------------------------------------------------------------
+# R15.9  an entity that has PASSED a requested state ends the wait
+#
+def r15_9(prog, rep, rid='R15.9'):
+    rep.rule(rid, 'an entity that has passed a requested state ends the wait: '
+             'the keep-waiting condition is false in every state whose value '
+             'lies above that of a requested state (a 0.1 s poll does not see '
+             'a state the entity only passes through)', minimum=4)
+    final = _final(prog)
+    for rel, cname, mname, what in ANCHORS:
+        f = prog.method(rel, cname, mname)
+        rep.saw(f)
+        g = cfg_of(f)
+        head = wait_loop(f, g)
+        pname, var, _ = normalisation(prog, f, g, head)
+        for k in wait_tables(prog, f, g, head, var, what):
+            table, domain, kept = k['table'], k['domain'], k['kept']
+            missed = []
+            for R in k['requests']:
+                low = min(table[r] for r in R)
+                for st in domain:
+                    if kept[(st, tuple(R))] and st not in final and \
+                            table[st] > low and \
+                            not any(table[r] == table[st] for r in R):
+                        missed.append((st, R))
+            rep.stat('state_combinations', len(k['requests']) * len(domain))
+            # the plainest witness: one requested state, the state next to it
+            inv = {}
+            for st in domain:
+                inv.setdefault(table[st], st)
+            missed.sort(key=lambda x: (
+                len(x[1]), table[x[0]] - min(table[r] for r in x[1]),
+                min(table[r] for r in x[1]) - 1 not in inv))
+            ex = missed[0] if missed else None
+            before = inv.get(min(table[r] for r in ex[1]) - 1) if ex else None
+            rep.check(not missed, rid, f, '%s: a %s that is past a requested '
+                      'state does not keep the wait going' % (f.qual, what),
+                      construct='keeps waiting past a requested state',
+                      message='%s: the wait goes on while `%s`, which still '
+                      'holds when the %s is in state %s and %s was requested '
+                      '(%d such combinations): the condition tests whether '
+                      'the %s IS in a requested state at the moment of the '
+                      'poll, not whether it HAS REACHED one.  The states are '
+                      'polled every 0.1 s; a %s that enters and leaves the '
+                      'requested state between two polls is never seen in '
+                      'it, and the call returns only when the %s is final '
+                      '(or at the timeout).  Compare the state values as '
+                      'TaskManager.wait_tasks does: keep waiting only while '
+                      'value(state) < min(value(s) for s in requested)'
+                      % (f.qual, short(k['cond'], 120), what,
+                         ex[0] if ex else '', ex[1] if ex else '',
+                         len(missed), what, what, what),
+                      loc=f.loc(k['site']),
+                      history='%s.%s(state=%r): the %s goes %s -> %s -> %s '
+                      'within one poll period of 0.1 s (a state that lasts '
+                      'only milliseconds); the polls see %s and then %s, '
+                      'never %s: the call returns only at the final state of '
+                      'the %s, or at the timeout'
+                      % (cname, mname, ex[1][0] if ex else '', what,
+                         before, ex[1][0] if ex else '', ex[0] if ex else '',
+                         before, ex[0] if ex else '',
+                         ex[1][0] if ex else '', what))
 
 
 # ------------------------------------------------------------------------------
@@ -1784,7 +2297,7 @@ class Shrink:
         if isinstance(e, ast.IfExp):
             return _join(self.coll(e.body, d), self.coll(e.orelse, d))
         if isinstance(e, ast.Call) and self.prog is not None:
-            body = inline_pred(self.prog, self.f, e)
+            body = inline_pred(self.prog, self.f, e, value=True)
             if body is not None:
                 return self.coll(body, d)
         return self.other(e, d)
@@ -1955,7 +2468,7 @@ def r15_5(prog, rep, rid='R15.5'):
         pname, var, _ = normalisation(prog, f, g, head)
         again = []
         ignored = []
-        for k in keep_tables(prog, f, g, head, var, what):
+        for k in wait_tables(prog, f, g, head, var, what):
             table, kept = k['table'], k['kept']
             ignored += k['ignored']
             for R in k['requests']:
@@ -2409,7 +2922,7 @@ def _bounded(prog, f, g, e, at, seen=()):
         if e.func.id in ('float', 'int', 'abs', 'round') and e.args:
             return _bounded(prog, f, g, e.args[0], at, seen)
     if isinstance(e, ast.Call):
-        body = inline_pred(prog, f, e)
+        body = inline_pred(prog, f, e, value=True)
         if body is not None:
             return _bounded(prog, f, g, body, at, seen)
         if clock_of(prog, f, e, f.module.local_imports(f.node)):
@@ -3183,7 +3696,7 @@ class TimeoutVals:
                 if fn in ('int', 'round') and s & {'pos', 'neg'}:
                     s = s | {'zero'}
                 return s
-            body = inline_pred(self.prog, self.f, e)
+            body = inline_pred(self.prog, self.f, e, value=True)
             if body is not None:
                 return self.expr(body, at)
             val = self.prog.fold(self.f.module, e, self.f.cls)
@@ -3392,7 +3905,10 @@ def run(prog, rep, tier):
         'returns a state read that is not older than the loop.  For '
         'wait_tasks / wait_pilots: the keep-waiting condition is right for '
         'every request and state (state tables), and the check list only '
-        'shrinks from round to round unless leaving it is permanent.  For all '
+        'shrinks from round to round unless leaving it is permanent; the same '
+        'table for the loop tests of Task.wait / Pilot.wait; for all four the '
+        'wait also ends for an entity that is PAST a requested state (R15.9: '
+        'known findings, only wait_tasks compares values).  For all '
         'four: the timeout is compared with a difference of two reads of the '
         'same clock; every blocking call either has a period bounded by a '
         'constant or waits on an event that every writer of the awaited state '
@@ -3404,8 +3920,7 @@ def run(prog, rep, tier):
         'and shrinks with the clock when handed down in a loop.')
     rep.undecided = ('"shortly after" (the poll period and scheduling of the '
         'waiting thread); that the state attribute is eventually updated '
-        '(C05/C06/C14); the value comparison of wait_tasks for non-final '
-        'requested states.')
+        '(C05/C06/C14).')
     rep.assumptions = [
         'a final state never changes (C06 / C14), so a test `x.state in '
         'rps.FINAL` stays true for the rest of the wait',
@@ -3420,6 +3935,9 @@ def run(prog, rep, tier):
         'the state of an entity only moves up the value table of states.py '
         '(C05 / C06): a keep-waiting condition that is false in s1 and true '
         'in a state of higher value makes re-examination observable',
+        'an entity whose state value lies above that of a requested state '
+        'has been in that state (linear state model, C06 / C14: the state '
+        'progress functions emit every intermediate state)',
         'clock functions are the time.* family and timeit.default_timer, '
         'resolved through the imports of the module; a clock hidden behind an '
         'attribute or an unresolvable call is not seen',
@@ -3442,6 +3960,7 @@ def run(prog, rep, tier):
     rep.attempt(r15_6, prog, rep)
     rep.attempt(r15_7, prog, rep)
     rep.attempt(r15_8, prog, rep)
+    rep.attempt(r15_9, prog, rep)
 
 
 # ------------------------------------------------------------------------------
@@ -4013,4 +4532,140 @@ SILENT += [
         (_PM, "                    break\n\n            time.sleep (0.1)\n\n        self._rep.idle(mode='stop')",
               "                    break\n\n                to_check[0].wait(state=states, timeout=0.1)\n\n        self._rep.idle(mode='stop')")],
          note='hand-over inside the polling loop with a constant period'),
+]
+
+
+# ------------------------------------------------------------------------------
+# round 4: C15-g5 (threshold `max` for `min`), C15-g6 (elapsed time START - NOW),
+# R15.4 on the loops of Task.wait / Pilot.wait, R15.9 ("has reached"), and the
+# predicate forms of the refactorings C15-r7 / C15-r8
+#
+_TM_UPD  = ("            check_state_val = min(check_state_val,\n"
+            "                                  rps._task_state_values[state])\n")
+_TM_FOLD = ("        check_state_val = rps._task_state_values[rps.FINAL[-1]]\n"
+            "        for state in states:\n" + _TM_UPD)
+_T_HEAD  = "        start_wait = time.time()\n" + _LOOP_FIXED
+_KEEP_W  = ("        def _keep_waiting(task):\n"
+            "            if task.state in rps.FINAL:\n                return %s\n"
+            "            return rps._task_state_values[task.state] < check_state_val\n\n")
+_SETTLED = ("        def _settled():\n            return self.state in states %s \\\n"
+            "                   self.state in rps.FINAL\n\n"
+            "        start_wait = time.time()\n        while not _settled():\n\n"
+            "            time.sleep(0.1)\n")
+_T_VALUE = ("        start_wait = time.time()\n"
+            "        low = %s(rps._task_state_values[s] for s in states)\n"
+            "        while rps._task_state_values[self.state] < low and \\\n"
+            "              self.state not in rps.FINAL:\n\n            time.sleep(0.1)\n")
+_T_FLAG  = ("        start_wait = time.time()\n        done = False\n        while not done:\n\n"
+            "            if self.state in states %s self.state in rps.FINAL:\n"
+            "                done = True\n                continue\n\n            time.sleep(0.1)\n")
+
+MUTATIONS += [
+    # --- threshold of wait_tasks (seed C15-g5)
+    dict(name='R15.4 seed C15-g5: wait_tasks threshold is the max of the requested values',
+         rules=('R15.4',), edits=[
+        (_TM, "            check_state_val = min(check_state_val,\n",
+              "            check_state_val = max(check_state_val,\n")],
+         note='starts at the final value: max() never comes down, every non-final task is waited for'),
+    dict(name='R15.4 wait_tasks threshold: max over a generator (the latest of several requested states)',
+         rules=('R15.4',), edits=[
+        (_TM, _TM_FOLD, "        check_state_val = max(rps._task_state_values[s] for s in states)\n")],
+         note='one requested state is unaffected; [A, B]: a task in A is still waited for'),
+    dict(name='R15.4 wait_tasks threshold: hand-written minimum with the comparison reversed',
+         rules=('R15.4',), edits=[
+        (_TM, _TM_UPD, "            if rps._task_state_values[state] > check_state_val:\n"
+                       "                check_state_val = rps._task_state_values[state]\n")]),
+    # --- orientation of the elapsed time (seed C15-g6)
+    dict(name='R15.2 seed C15-g6: wait_pilots elapsed time is start - now',
+         rules=('R15.2',), edits=[
+        (_PM, _PM_TMO, _PM_TMO.replace("time.time() - start", "start - time.time()"))]),
+    dict(name='R15.2 Task.wait: elapsed time is start - now (the sibling site)',
+         rules=('R15.2',), edits=[
+        (_T, "(time.time() - start_wait)", "(start_wait - time.time())")]),
+    dict(name='R15.2 wait_tasks: elapsed time in a local, subtracted the wrong way round',
+         rules=('R15.2',), edits=[
+        (_TM, _TM_TMO, "            elapsed = start - time.time()\n"
+                       "            if timeout and elapsed >= timeout:")]),
+    dict(name='R15.2 Pilot.wait: deadline form with the deadline before the start',
+         rules=('R15.2',), edits=[
+        (_P, _P_TMO, "            if timeout and start_wait - timeout >= time.time():\n                break\n\n"
+                     "            if self._pmgr._terminate.is_set():")]),
+    # --- R15.4 on the single-entity loops
+    dict(name='R15.4 Task.wait: requested-state test with inverted polarity',
+         rules=('R15.4',), edits=[
+        (_T, _LOOP_FIXED, _LOOP_FIXED.replace("self.state not in states", "self.state in states"))],
+         note='returns at once unless the task already is in a requested state, then never'),
+    dict(name='R15.4 Pilot.wait: state compared with the list of states by !=',
+         rules=('R15.4',), edits=[
+        (_P, _LOOP_FIXED, _LOOP_FIXED.replace("self.state not in states", "self.state != states"))],
+         note='a string never equals a list'),
+    dict(name='R15.4 Pilot.wait: closure predicate joins its two tests with `and`',
+         rules=('R15.4', 'R15.2'), edits=[(_P, _T_HEAD, _SETTLED % 'and')]),
+    dict(name='R15.2 wait_tasks: if-return closure keeps final tasks',
+         rules=('R15.2',), edits=[
+        (_TM, _TM_START, _KEEP_W % 'True' + _TM_START),
+        (_TM, _TM_COND, "                if _keep_waiting(task):")]),
+    dict(name='R15.4 Task.wait compares values but takes <= (fix of R15.9 gone wrong)',
+         rules=('R15.4',), edits=[
+        (_T, _T_HEAD, (_T_VALUE % 'min').replace("[self.state] < low", "[self.state] <= low"))]),
+    dict(name='R15.4 Task.wait steered by a flag that is set only for a requested AND final state',
+         rules=('R15.4', 'R15.2'), edits=[(_T, _T_HEAD, _T_FLAG % 'and')]),
+    # --- R15.9
+    dict(name='R15.9 wait_tasks falls back to the membership test of its siblings',
+         rules=('R15.9',), edits=[
+        (_TM, _TM_COND, "                if task.state not in rps.FINAL and \\\n"
+                        "                    task.state not in states:")],
+         note='a task that runs through AGENT_EXECUTING_PENDING within 0.1 s is waited for until it is final'),
+    dict(name='R15.9 Task.wait compares values with the LATEST requested state',
+         rules=('R15.9', 'R15.4'), edits=[(_T, _T_HEAD, _T_VALUE % 'max')]),
+]
+
+SILENT += [
+    # --- predicate forms (refactorings C15-r7 / C15-r8)
+    dict(name='corpus r7: wait_tasks keeps by an if-return closure', edits=[
+        (_TM, _TM_START, _KEEP_W % 'False' + _TM_START),
+        (_TM, _TM_COND, "                if _keep_waiting(task):")]),
+    dict(name='corpus r8: Pilot.wait loop guard is a closure over self and states', edits=[
+        (_P, _T_HEAD, _SETTLED % 'or')]),
+    dict(name='Task.wait: loop guard is a lambda', edits=[
+        (_T, _T_HEAD, "        settled    = lambda: self.state in states or self.state in rps.FINAL\n"
+                      "        start_wait = time.time()\n        while not settled():\n\n            time.sleep(0.1)\n")]),
+    dict(name='Task.wait: loop guard as not (.. or ..)', edits=[
+        (_T, _LOOP_FIXED, "        while not (self.state in states or self.state in rps.FINAL):\n\n            time.sleep(0.1)\n")]),
+    dict(name='Task.wait: requested states copied into a set before the loop', edits=[
+        (_T, _T_HEAD, "        wanted     = set(states)\n        start_wait = time.time()\n"
+                      "        while self.state not in wanted and \\\n              self.state not in rps.FINAL:\n\n            time.sleep(0.1)\n")]),
+    dict(name='Task.wait: loop steered by a flag', edits=[(_T, _T_HEAD, _T_FLAG % 'or')]),
+    # --- orientation of the elapsed time
+    dict(name='wait_pilots: elapsed time as -(start - now)', edits=[
+        (_PM, _PM_TMO, _PM_TMO.replace("(time.time() - start)", "-(start - time.time())"))]),
+    dict(name='wait_pilots: deadline on the left', edits=[
+        (_PM, _PM_TMO, "                if timeout and (start + timeout <= time.time()):")]),
+    dict(name='wait_tasks: remaining time not positive', edits=[
+        (_TM, _TM_TMO, "            if timeout and (timeout - (time.time() - start)) <= 0:")]),
+    # --- threshold of wait_tasks
+    dict(name='wait_tasks threshold: min with swapped arguments', edits=[
+        (_TM, _TM_UPD, "            check_state_val = min(rps._task_state_values[state],\n"
+                       "                                  check_state_val)\n")]),
+    dict(name='wait_tasks threshold: min over a list of the two', edits=[
+        (_TM, _TM_UPD, "            check_state_val = min([check_state_val,\n"
+                       "                                   rps._task_state_values[state]])\n")]),
+    dict(name='wait_tasks threshold: hand-written minimum', edits=[
+        (_TM, _TM_UPD, "            if rps._task_state_values[state] < check_state_val:\n"
+                       "                check_state_val = rps._task_state_values[state]\n")]),
+    dict(name='wait_tasks threshold: hand-written minimum, early continue', edits=[
+        (_TM, _TM_UPD, "            val = rps._task_state_values[state]\n            if val >= check_state_val:\n"
+                       "                continue\n            check_state_val = val\n")]),
+    # --- R15.9: the repaired forms (the known finding goes away, nothing new)
+    dict(name='Task.wait compares values like wait_tasks (repair of the R15.9 finding)', edits=[
+        (_T, _T_HEAD, _T_VALUE % 'min')]),
+    dict(name='Task.wait compares values, threshold folded in a loop', edits=[
+        (_T, _T_HEAD, "        start_wait = time.time()\n        low = rps._task_state_values[rps.DONE]\n"
+                      "        for s in states:\n            low = min(low, rps._task_state_values[s])\n"
+                      "        while rps._task_state_values[self.state] < low and \\\n"
+                      "              self.state not in rps.FINAL:\n\n            time.sleep(0.1)\n")]),
+    dict(name='wait_pilots compares values (repair of the R15.9 finding)', edits=[
+        (_PM, _PM_WHILE, "        low = min([rps._pilot_state_values[s] for s in states])\n" + _PM_WHILE),
+        (_PM, _PM_FILT, _PM_FILT.replace("pilot.state not in states and",
+                                         "rps._pilot_state_values[pilot.state] < low and"))]),
 ]
